@@ -12,7 +12,17 @@ beyond one poll, deferred clean-up of IOS ApplyCommands (C09 / C15 own those).
 -/
 namespace NA.Gate
 
-def errRet (t : String) : Prog := .note "if" "err != nil" ;; .block (.note "ret" t)
+def errRet (t : String) : Prog := .note "guard" "err != nil" ;; .block (.note "ret" t)
+
+/-- A pure helper of the Go code (parsing, decoding, comparison of configurations): the model gives
+it a meaning (`body`), the normal form of the skeleton does not show the call. -/
+abbrev pureCall (body : Prog) : Prog := .call "" body
+
+/-! Regular expressions of the login dialogues (Go raw strings; constants are folded by the
+translator, so the requests show the whole expression). -/
+def ciscoStdPrompt : String := "\\n\\r?[^#> ]+[>#] ?$"
+def linuxStdPrompt : String := "\\r\\n\\S*\\s?[%>$#]\\s?(?:\\x27\\S*)?"
+def linuxPassPrompt : String := linuxStdPrompt ++ "|(?i)password:"
 
 def isText : Reply → Bool
   | .text _ => true
@@ -32,17 +42,16 @@ def sufOut (suf : String) : Pred := .hasSuffix (.v .out) suf
 
 /-- body of the closure `waitPrompt(enter, suffix)` -/
 def wpBody (o : Out) : Prog :=
-  .note "assign" "stdPrompt := `\\n\\r?[^#> ]+[>#] ?$`" ;;
-  .send "IssueCmd" "enter `(?i)password:|` + stdPrompt" o .abort ;; outSet ;;
-  .collect "bannerLines += out" ;;
+  .send "IssueCmd" ("c1p1 " ++ goQuote ("(?i)password:|" ++ ciscoStdPrompt)) o .abort ;; outSet ;;
+  .collect "v1 += r1" ;;
   .assign .out false false (.trimSuffix (.v .out) " ") ;;
-  .note "ret" "strings.HasSuffix(out, suffix)"
+  .note "ret" "strings.HasSuffix(r1, c1p2)"
 
 /-- `checkBanner(lines, cfg)`: the parameter `lines` is bound to `bannerLines` -/
 def ciscoCheckBanner : Prog :=
   .assign .lines true true .bannerLines ;;
   .record (.and .bannerSet (.bannerNoMatch (.v .lines)))
-    "s.errUnmanaged = []error{errors.New(\"Missing banner at NetSPoC managed device\")}" .set
+    "recv.errUnmanaged = []error{errors.New(\"Missing banner at NetSPoC managed device\")}" .set
     (fun _ _ => [missingBanner])
 
 /-- `strings.HasSuffix(strings.ToLower(out), "password:")` -/
@@ -50,47 +59,48 @@ def askedForPassword : Pred := .hasSuffix (.toLower (.v .out)) "password:"
 
 /-- `LoginEnable` up to (not including) the call of `checkBanner`. -/
 def ciscoLoginPre : Prog :=
-  .send "WaitLogin" "\"(?i)password:|\\(yes/no.*\\)\\?\"" .wait .abort ;; outDecl ;;
+  .send "WaitLogin" (goQuote "(?i)password:|\\(yes/no.*\\)\\?") .wait .abort ;; outDecl ;;
   .ite (.hasSuffix (.v .out) "?")
     (.send "IssueCmd" "\"yes\" \"(?i)password:\"" (.lit "yes") .abort ;; outSet) .nop ;;
-  .collect "bannerLines += out" ;;
-  .defn "waitPrompt" (wpBody (.lit "<enter>")) ;;
-  .call "waitPrompt" (wpBody .pass) ;;
-  .ite (.val "waitPrompt(pass, \">\")" (sufOut ">"))
-    (.call "waitPrompt" (wpBody (.lit "enable")) ;;
-     .ite (.not (.val "waitPrompt(\"enable\", \"#\")" (sufOut "#")))
+  .collect "v1 += r1" ;;
+  .defn "f1" (wpBody (.lit "<enter>")) ;;
+  .call "f1" (wpBody .pass) ;;
+  .ite (.val "f1(p1, \">\")" (sufOut ">"))
+    (.call "f1" (wpBody (.lit "enable")) ;;
+     .ite (.not (.val "f1(\"enable\", \"#\")" (sufOut "#")))
        -- `if !strings.HasSuffix(strings.ToLower(out), "password:") || !waitPrompt(pass, "#") { Abort }`:
        -- `||` short-circuits, the password is sent only if the device asks for one.  The steps are
        -- inside the call node; the guard is shown in the form printed from the same predicates.
-       (.call "waitPrompt"
+       (.call "f1"
           (.ite askedForPassword
              (wpBody .pass ;;
-              .check (.not (.val "waitPrompt(pass, \"#\")" (sufOut "#"))) "abort"
+              .check (.not (.val "f1(p1, \"#\")" (sufOut "#"))) "abort"
                 "Authentication for enable mode failed" (.abort "Authentication for enable mode failed"))
              (.check (.not askedForPassword) "abort" "Authentication for enable mode failed"
                 (.abort "Authentication for enable mode failed"))) ;;
-        .note "if" (Pred.or (.not askedForPassword) (.not (.val "waitPrompt(pass, \"#\")" (sufOut "#")))).show ;;
+        .note "guard" (Pred.or (.not askedForPassword) (.not (.val "f1(p1, \"#\")" (sufOut "#")))).show ;;
         .block (.note "abort" "Authentication for enable mode failed"))
        .nop)
     (.check (.not (.hasSuffix (.v .out) "#")) "abort" "Authentication failed"
       (.abort "Authentication failed")) ;;
-  .send "IssueCmd" "\"\" \"#[ ]?\"" (.lit "") .abort ;; outSet ;;
-  .note "call" "SetStdPrompt"
+  .send "IssueCmd" "\"\" \"#[ ]?\"" (.lit "") .abort ;; outSet
 
 def ciscoLoginEnable : Prog := ciscoLoginPre ;; .call "checkBanner" ciscoCheckBanner
 
 def ciscoGetChanges : Prog :=
-  .note "call" "alignVRFs" ;;
-  .call "checkInterfaces"
+  pureCall
     (.check (.opaque "" fun c r _ => (c.changesErr r).isSome) "ret" "err" (.fail "GetChanges: interface check")) ;;
   errRet "err" ;;
-  .note "call" "ignoreCryptoGDOI" ;; .note "call" "diffConfig" ;; .note "ret" "nil"
+  .note "ret" "nil"
 
 def parseConfig : Prog :=
   .check (.opaque "" fun c r _ => match r with | .text s => !c.parses s | _ => true) "ret" "err"
     (.fail "While reading device: parse error")
 
-def sshConn : Prog := .send "Spawn" "" .connect .fail
+/-- `console.GetSSHConn` (inlined by the translator: it is the only thing between the credentials
+and the login dialogue that touches the wire) -/
+def sshConn : Prog :=
+  .send "SpawnWithArgs" "" .connect .fail ;; .note "assign" "r1, _, err := <reply>"
 
 def asaSetTerminal : Prog :=
   .send "GetCmdOutput" "\"sh pager\"" (.lit "sh pager") .abort ;; outDecl ;;
@@ -114,17 +124,16 @@ def asaCheckDeviceName : Prog :=
   nameCheck
 
 def ciscoPreLogin : Prog :=
-  .note "call" "GetUserPass" ;; errRet "nil, err" ;;
-  .call "console.GetSSHConn" sshConn ;; errRet "nil, err"
+  errRet "nil, err" ;;
+  sshConn ;; errRet "nil, err"
 
 def asaPostLogin : Prog :=
   .call "setTerminal" asaSetTerminal ;;
   .call "logVersion" asaLogVersion ;;
   .call "checkDeviceName" asaCheckDeviceName ;;
-  .note "call" "SetLogFH" ;;
   .send "GetCmdOutput" "\"write term\"" (.lit "write term") .abort ;; outDecl ;;
-  .call "ParseConfig" parseConfig ;;
-  .note "ret" "config, err"
+  pureCall parseConfig ;; .note "assign" "v1, err ⇐ r1" ;;
+  .note "ret" "v1, err"
 
 def asaLoadDevice : Prog := ciscoPreLogin ;; .call "LoginEnable" ciscoLoginEnable ;; asaPostLogin
 
@@ -144,26 +153,22 @@ def iosPostLogin : Prog :=
   .call "setTerminal" iosSetTerminal ;;
   .call "logVersion" iosLogVersion ;;
   .call "checkDeviceName" iosCheckDeviceName ;;
-  .note "call" "SetLogFH" ;;
   .send "GetCmdOutput" "\"sh run\"" (.lit "sh run") .abort ;; outDecl ;;
-  .call "ParseConfig" parseConfig ;;
-  .note "ret" "config, err"
+  pureCall parseConfig ;; .note "assign" "v1, err ⇐ r1" ;;
+  .note "ret" "v1, err"
 
 def iosLoadDevice : Prog := ciscoPreLogin ;; .call "LoginEnable" ciscoLoginEnable ;; iosPostLogin
 
 /-! ## Linux -/
 
 def linuxLoginEnable : Prog :=
-  .note "assign" "stdPrompt := `\\r\\n\\S*\\s?[%>$#]\\s?(?:\\x27\\S*)?`" ;;
-  .note "assign" "passPrompt := stdPrompt + `|(?i)password:`" ;;
-  .send "WaitLogin" "passPrompt + `|\\(yes/no.*\\)\\?`" .wait .abort ;; outDecl ;;
+  .send "WaitLogin" (goQuote (linuxPassPrompt ++ "|\\(yes/no.*\\)\\?")) .wait .abort ;; outDecl ;;
   .ite (.hasSuffix (.v .out) "?")
-    (.send "IssueCmd" "\"yes\" passPrompt" (.lit "yes") .abort ;; outSet) .nop ;;
+    (.send "IssueCmd" ("\"yes\" " ++ goQuote linuxPassPrompt) (.lit "yes") .abort ;; outSet) .nop ;;
   .ite (.hasSuffix (.v .out) "word:")
-    (.send "IssueCmd" "pass passPrompt" .pass .abort ;; outSet) .nop ;;
+    (.send "IssueCmd" ("p1 " ++ goQuote linuxPassPrompt) .pass .abort ;; outSet) .nop ;;
   .check (.hasSuffix (.v .out) "word:") "abort" "Authentication failed" (.abort "Authentication failed") ;;
-  .send "IssueCmd" "\"PS1=router#\" stdPrompt" (.lit "PS1=router#") .abort ;;
-  .note "call" "SetStdPrompt"
+  .send "IssueCmd" ("\"PS1=router#\" " ++ goQuote linuxStdPrompt) (.lit "PS1=router#") .abort
 
 def linuxLogVersion : Prog :=
   .send "GetCmdOutput" "\"uname -r\"" (.lit "uname -r") .abort ;;
@@ -175,50 +180,47 @@ def linuxCheckDeviceName : Prog :=
   nameCheck
 
 def linuxGrep (cfg : Cfg) : Prog :=
-  .send "GetCmdOutput" "\"grep '\" + re + \"' /etc/issue\"" (.litArg "grep '" cfg.bannerSrc) .abort ;;
-  .assign .lines true false .reply ;;
-  .record (.isEmpty (.v .lines))
-    "s.errUnmanaged = []error{errors.New(\"Missing banner at NetSPoC managed device\")}" .set
+  .send "GetCmdOutput" ("\"grep '\" + " ++ TExp.re.show ++ " + \"' /etc/issue\"") (.litArg "grep '" cfg.bannerSrc) .abort ;;
+  .assign .out true false .reply ;;
+  .record (.isEmpty (.v .out))
+    "recv.errUnmanaged = []error{errors.New(\"Missing banner at NetSPoC managed device\")}" .set
     (fun _ _ => [missingBanner])
 
 /-- `checkBanner` as it is now (with the nil guard of the `fix:` commit). -/
 def linuxCheckBanner (cfg : Cfg) : Prog :=
-  .early .bannerUnset "" (.note "call" "String" ;; linuxGrep cfg)
+  .early .bannerUnset "" (linuxGrep cfg)
 
 /-- `checkBanner` of the unchanged tree: `cfg.CheckBanner.String()` on a nil regexp. -/
 def linuxCheckBannerUnfixed (cfg : Cfg) : Prog :=
   .crash "cfg.CheckBanner.String(): nil pointer dereference" (fun c => c.banner.isNone) ;;
-  .note "call" "String" ;; linuxGrep cfg
+  linuxGrep cfg
 
 def linuxGetIPTables : Prog :=
   .send "GetCmdOutput" "\"iptables-save\"" (.lit "iptables-save") .abort ;; outDecl ;;
-  .note "call" "parseIPTables" ;; .note "ret" "parseIPTables(…)"
+  .note "ret" "parseIPTables(…)"
 
 def linuxGetRoutes : Prog :=
   .send "GetCmdOutput" "\"ip route show\"" (.lit "ip route show") .abort ;; outDecl ;;
-  .note "assign" "lines := strings.Split(out, \"\\n\")" ;;
-  .note "if" "s > 0 && lines[s-1] == \"\"" ;; .block (.note "assign" "lines = lines[:s-1]") ;;
-  .note "call" "parseRoutes" ;; .note "ret" "parseRoutes(…)"
+  .note "ret" "parseRoutes(…)"
 
 def linuxPreBanner : Prog :=
-  .note "call" "GetUserPass" ;; errRet "nil, err" ;;
-  .call "console.GetSSHConn" sshConn ;; errRet "nil, err" ;;
+  errRet "nil, err" ;;
+  sshConn ;; errRet "nil, err" ;;
   .call "loginEnable" linuxLoginEnable ;;
   .call "logVersion" linuxLogVersion ;;
   .call "checkDeviceName" linuxCheckDeviceName
 
 def linuxPostBanner : Prog :=
-  .note "call" "SetLogFH" ;;
   .call "getDeviceIPTables" linuxGetIPTables ;;
   .call "getDeviceRoutes" linuxGetRoutes ;;
-  .note "ret" "&config{ iptables: s.getDeviceIPTables(), routes: s.getDeviceRoutes() }, err"
+  .note "ret" "&config{iptables: recv.getDeviceIPTables(), routes: recv.getDeviceRoutes()}, err"
 
 def linuxLoadDeviceWith (checkBanner : Prog) : Prog :=
   linuxPreBanner ;; .call "checkBanner" checkBanner ;; linuxPostBanner
 
 def linuxLoadDevice (cfg : Cfg) : Prog := linuxLoadDeviceWith (linuxCheckBanner cfg)
 
-def linuxGetChanges : Prog := .note "call" "diffConfig" ;; .note "ret" "nil"
+def linuxGetChanges : Prog := .note "ret" "nil"
 
 /-! ## PAN-OS -/
 
@@ -228,9 +230,9 @@ def panConf : Out := .lit "type=config&action=get&xpath=/config/devices"
 
 def panGetAPIKey : Prog :=
   errRet "\"\", err" ;;
-  .send "httpGet" "uri" panKeygen .fail ;;
-  .note "if" "err != nil" ;; .block (.note "call" "Error" ;; .note "ret" "\"\", Errorf(…)") ;;
-  .call "parseAPIKey"
+  .send "httpGet" "v1" panKeygen .fail ;; .note "assign" "r1, err := <reply>" ;;
+  errRet "\"\", Errorf(…)" ;;
+  pureCall
     (.check (.opaque "" fun _ r _ => !isText r) "ret" "err" (.fail "API key: no key")) ;;
   .note "ret" "parseAPIKey(…)"
 
@@ -243,24 +245,28 @@ def haOK : Reply → Bool
     else false
   | _ => false
 
+def outText : Out → String
+  | .lit s => s
+  | _ => ""
+
 def panCheckHA : Prog :=
-  .send "httpPrefixGetLog" "uri" panHa .ignore ;;
-  .note "if" "err != nil" ;; .block (.note "ret" "false") ;;
-  .note "call" "parseResponse" ;;
-  .note "if" "err != nil" ;; .block (.note "ret" "false") ;;
-  .note "if" "err != nil" ;; .block (.note "ret" "false") ;;
-  .note "if" "ha.Enabled != \"yes\"" ;; .block (.note "ret" "true") ;;
-  .note "switch" "ha.Mode" ;;
-  .block (.note "case" "\"Active-Passive\"" ;; .block (.note "ret" "ha.State == \"active\"") ;;
-          .note "case" "\"Active-Active\"" ;; .block (.note "ret" "ha.State == \"active-primary\"")) ;;
+  .send "httpPrefixGetLog" (goQuote (outText panHa)) panHa .ignore ;; .note "assign" "r1, err := <reply>" ;;
+  errRet "false" ;;
+  .note "assign" "_, v1, err ⇐ r1" ;;
+  errRet "false" ;;
+  .note "assign" "err, v2 ⇐ v1" ;;
+  errRet "false" ;;
+  .note "guard" "v2.Enabled != \"yes\"" ;; .block (.note "ret" "true") ;;
+  .note "switch" "v2.Mode" ;;
+  .block (.note "case" "\"Active-Passive\"" ;; .block (.note "ret" "v2.State == \"active\"") ;;
+          .note "case" "\"Active-Active\"" ;; .block (.note "ret" "v2.State == \"active-primary\"")) ;;
   .note "ret" "false"
 
 /-- the closure passed to TryReachableHTTPLogin, for name `n` of the name list -/
 def panLoginBody (n : String) : Prog :=
-  .note "call" "httpdevice.GetHTTPClient" ;;
   .call "getAPIKey" panGetAPIKey ;; errRet "err" ;;
   .call "checkHA" panCheckHA ;;
-  .check (.opaque "!s.checkHA(logLogin)" fun _ r _ => !haOK r) "ret" "Errorf(…)"
+  .check (.opaque "!recv.checkHA(p3)" fun _ r _ => !haOK r) "ret" "Errorf(…)"
     (.fail "not in active state") ;;
   .setName n ;;
   .note "ret" "nil"
@@ -272,9 +278,7 @@ def tryNames (body : String → Prog) : List String → Prog
   | n :: ns => .attempt (body n) (tryNames body ns)
 
 def panCheckDeviceName : Prog :=
-  .note "call" "getDevName" ;;
-  .note "assign" "name := c.getDevName()" ;;
-  .check (.opaque "name != expected" fun _ r dn =>
+  .check (.opaque "v1 != p1" fun _ r dn =>
       match r with
       | .conf h _ => h != dn
       | _ => true) "ret" "Errorf(…)" (.fail wrongName) ;;
@@ -282,17 +286,18 @@ def panCheckDeviceName : Prog :=
 
 /-- `LoadDevice` from the request of the candidate configuration on. -/
 def panLoadSuffix : Prog :=
-  .send "httpPrefixGetLog" "uri" panConf .fail ;; errRet "nil, err" ;;
-  .call "parseResponseConfig"
+  .send "httpPrefixGetLog" (goQuote (outText panConf)) panConf .fail ;; .note "assign" "r1, err := <reply>" ;;
+  errRet "nil, err" ;;
+  pureCall
     (.check (.opaque "" fun _ r _ => match r with | .conf _ _ => false | _ => true) "ret" "err"
       (.fail "While reading device: bad config")) ;;
-  .note "if" "err != nil" ;; .block (.note "ret" "config, Errorf(…)") ;;
+  .note "assign" "v1, err ⇐ r1" ;;
+  errRet "v1, Errorf(…)" ;;
   .call "checkDeviceName" panCheckDeviceName ;;
-  .note "ret" "config, err"
+  .note "ret" "v1, err"
 
 def panLoadDevice (cfg : Cfg) : Prog :=
-  .note "assign" "devName := \"\"" ;;
-  .call "httpdevice.TryReachableHTTPLogin" (tryNames panLoginBody cfg.names) ;;
+  .call "TryReachableHTTPLogin" (tryNames panLoginBody cfg.names) ;;
   .defn "" (panLoginBody "<name>") ;;
   errRet "nil, err" ;;
   panLoadSuffix
@@ -310,9 +315,8 @@ def panUnmarkedOf (cfg : Cfg) : Reply → List String
 
 /-- `checkUnmanaged(v)` for every vsys pair, in one step -/
 def panCheckUnmanaged : Prog :=
-  .note "assign" "name := strings.ToLower(v.DisplayName)" ;;
-  .record (.opaque "!strings.Contains(name, \"netspoc\")" fun cfg r _ => !(panUnmarkedOf cfg r).isEmpty)
-    "s.errUnmanaged = append(s.errUnmanaged, fmt.Errorf(\"Missing NetSPoC in name of %s\", v.Name))"
+  .record (.opaque "!strings.Contains(strings.ToLower(p1.DisplayName), \"netspoc\")" fun cfg r _ => !(panUnmarkedOf cfg r).isEmpty)
+    "recv.errUnmanaged = append(recv.errUnmanaged, fmt.Errorf(\"Missing NetSPoC in name of %s\", p1.Name))"
     .append panUnmarkedOf
 
 /-- `GetChanges`: for every vsys pair `checkUnmanaged`; a vsys only Netspoc knows is an error. -/
@@ -324,23 +328,21 @@ def panProcessVsysPairs : Prog :=
       | _ => false) "ret" "Errorf(…)" (.fail "Unknown name in VSYS of device configuration")
 
 def panGetChanges : Prog :=
-  .call "processVsysPairs" panProcessVsysPairs ;;
+  pureCall panProcessVsysPairs ;;
   .defn ""
-    (.note "if" "v1 == nil" ;; .block (.note "ret" "Errorf(…)") ;;
-     .note "if" "v2 == nil" ;; .block (.note "ret" "nil") ;;
+    (.note "guard" "c1p1 == nil" ;; .block (.note "ret" "Errorf(…)") ;;
+     .note "guard" "c1p2 == nil" ;; .block (.note "ret" "nil") ;;
      .call "checkUnmanaged" panCheckUnmanaged ;;
-     .note "call" "nameAttr" ;; .note "call" "nameAttr" ;; .note "call" "diffConfig" ;;
      .note "ret" "nil") ;;
   .note "ret" "err"
 
 /-! ## NSX -/
 
 def nsxLoginBody (_n : String) : Prog :=
-  .note "call" "httpdevice.GetHTTPClient" ;;
   errRet "err" ;;
-  .send "PostForm" "uri" (.lit "POST /api/session/create") .fail ;;
+  .send "PostForm" "v1" (.lit "POST /api/session/create") .fail ;; .note "assign" "r1, err := <reply>" ;;
   errRet "err" ;;
-  .note "if" "resp.StatusCode != http.StatusOK" ;; .block (.note "ret" "Errorf(…)") ;;
+  .note "guard" "r1.StatusCode != http.StatusOK" ;; .block (.note "ret" "Errorf(…)") ;;
   .note "ret" "nil"
 
 def nsxPolicies : Out := .lit "GET /policy/api/v1/infra/domains/default/gateway-policies"
@@ -352,39 +354,47 @@ def cursorOf : Reply → String
   | .page _ c => c
   | _ => ""
 
-/-- `getRawJSON(path)`: `for { GET path?cursor=<cursor>; …; cursor = results.Cursor; if cursor == "" { break } }` -/
+/-- `getRawJSON(path)`: `for { GET path?cursor=<cursor>; …; cursor = results.Cursor; if cursor == "" { break } }`
+(the `guard v1 == "" / break` is printed by `skel` from the loop condition) -/
 def nsxGetRawJSON (pre : String) : Prog :=
   .setCur (fun _ => "") ;;
   .loop ""
-    (.sendCur "sendRequest" "\"GET\" path + \"?cursor=\" + cursor" pre .fail ;;
-     .note "assign" "out, err := <reply>" ;;
+    (.sendCur "sendRequest" "\"GET\" p1 + \"?cursor=\" + v1" pre .fail ;;
+     .note "assign" "r1, err := <reply>" ;;
      errRet "nil, err" ;;
+     .note "assign" "err, v2 ⇐ r1" ;;
      .check (.opaque "err != nil" fun _ r _ => match r with | .page _ _ => false | _ => true)
        "ret" "nil, Errorf(…)" (.fail "while parsing") ;;
-     .note "for" "range results.Results" ;;
-     .block (errRet "nil, err") ;;
-     .setCur cursorOf)
+     .note "for" "range v2.Results" ;;
+     .block (.note "assign" "err, v3 ⇐ v4" ;; errRet "nil, err" ;;
+             .note "if" "strings.HasPrefix(v3.Id, \"Netspoc\")" ;; .block (.note "assign" "v5 ⇐ v5, v4")) ;;
+     .setCur cursorOf ;; .note "assign" "v1 = v2.Cursor")
     .cursorSet ;;
-  .note "ret" "data, nil"
+  .note "ret" "v5, nil"
 
 def isNetspocId (id : String) : Bool := "Netspoc".toList.isPrefixOf id.toList
 
 def nsxLoadDevice (cfg : Cfg) : Prog :=
-  .call "httpdevice.TryReachableHTTPLogin" (tryNames nsxLoginBody cfg.names) ;;
+  .call "TryReachableHTTPLogin" (tryNames nsxLoginBody cfg.names) ;;
   .defn "" (nsxLoginBody "<name>") ;;
   errRet "nil, err" ;;
-  .send "sendRequest" "\"GET\" path" nsxPolicies .fail ;; errRet "nil, err" ;;
+  .send "sendRequest" "\"GET\" v2" nsxPolicies .fail ;; .note "assign" "r2, err := <reply>" ;;
+  errRet "nil, err" ;;
+  .note "assign" "err, v3 ⇐ r2" ;;
   .check (.opaque "err != nil" fun _ r _ => match r with | .page _ _ => false | _ => true)
     "ret" "nil, Errorf(…)" (.fail "while parsing") ;;
-  .forIds "range resultStruct.Results" isNetspocId
-    (.sendCur "sendRequest" "\"GET\" path + \"/\" + result.Id" nsxPolicyPre .fail ;; errRet "nil, err") ;;
+  .forIds "range v3.Results" (fun _ => true)
+    (.ite (.idHasPrefix "Netspoc")
+      (.sendCur "sendRequest" "\"GET\" v2 + \"/\" + v4.Id" nsxPolicyPre .fail ;;
+       .note "assign" "r3, err := <reply>" ;; errRet "nil, err" ;;
+       .note "assign" "v5.Policies ⇐ v5, r3") .nop) ;;
   .call "getRawJSON" (nsxGetRawJSON nsxServicesPre) ;; errRet "nil, err" ;;
   .call "getRawJSON" (nsxGetRawJSON nsxGroupsPre) ;; errRet "nil, err" ;;
-  .note "assign" "out, err := json.Marshal(rawConf)" ;; errRet "nil, err" ;;
-  .call "ParseConfig" .nop ;; errRet "nil, Errorf(…)" ;;
-  .note "ret" "config, nil"
+  .note "assign" "v6, err ⇐ v5" ;; errRet "nil, err" ;;
+  .note "assign" "v7, err ⇐ v6" ;; errRet "nil, Errorf(…)" ;;
+  .note "ret" "v7, nil"
 
-def nsxGetChanges : Prog := .note "call" "diffConfig" ;; .note "ret" "nil"
+def nsxGetChanges : Prog := .note "ret" "nil"
 
 /-! ## ApplyCommands (skeleton not compared here: C09 / C15) -/
 
@@ -472,7 +482,7 @@ def consults : Backend → Bool
   | .linux | .nsx => false
 
 def getErrUnmanagedSkel (b : Backend) : List Item :=
-  [(0, "ret", if consults b then "s.errUnmanaged" else "nil")]
+  [(0, "ret", if consults b then "recv.errUnmanaged" else "nil")]
 
 /-- `CloseConnection`: ASA / IOS send `exit`; the others do nothing. -/
 def closeOut : Backend → Option Out
@@ -482,12 +492,12 @@ def closeOut : Backend → Option Out
 /-! ## orchestration: go/pkg/device/main.go -/
 
 def loadDeviceP (load : Prog) : Prog :=
-  .note "call" "getLogFH" ;; errRet "nil, err" ;; .note "defer" "" ;; .block (.note "call" "closeLogFH") ;;
-  .note "call" "getLogFH" ;; errRet "nil, err" ;; .note "defer" "" ;; .block (.note "call" "closeLogFH") ;;
+  errRet "nil, err" ;;
+  errRet "nil, err" ;;
   .call "LoadDevice" load ;; .note "ret" "LoadDevice(…)"
 
 def getCompareP (getChanges : Prog) : Prog :=
-  .note "call" "loadSpoc" ;; errRet "err" ;;
+  errRet "err" ;;
   .call "GetChanges" getChanges ;; .note "ret" "GetChanges(…)"
 
 def compareDeviceP (load getChanges : Prog) : Prog :=
@@ -495,7 +505,7 @@ def compareDeviceP (load getChanges : Prog) : Prog :=
   .call "getCompare" (getCompareP getChanges) ;; .note "ret" "getCompare(…)"
 
 def applyCommandsP (apply : Prog) : Prog :=
-  .note "call" "getLogFH" ;; errRet "err" ;; .note "defer" "" ;; .block (.note "call" "closeLogFH") ;;
+  errRet "err" ;;
   .ifChanges (.call "ApplyCommands" apply ;; .note "ret" "ApplyCommands(…)")
 
 /-- `(*state).approve`, parameterised by the pieces so that variants (the unchanged Linux
@@ -511,25 +521,20 @@ def approveP (b : Backend) (cfg : Cfg) : Prog :=
 def compareWith (load getChanges : Prog) : Prog :=
   .call "compareDevice" (compareDeviceP load getChanges) ;; errRet "err" ;;
   .warnU ;;
-  .note "call" "showCompareInfo" ;;
-  .note "call" "HasChanges" ;;
-  .note "if" "s.logFname != \"\" && s.HasChanges()" ;;
-  .block (.note "call" "getLogFH" ;; errRet "err" ;; .note "defer" "" ;; .block (.note "call" "closeLogFH") ;;
-          .note "call" "ShowChanges") ;;
+  .note "if" "recv.logFname != \"\" && recv.HasChanges()" ;;
+  .block (errRet "err") ;;
   .note "ret" "nil"
 
 def compareP (b : Backend) (cfg : Cfg) : Prog := compareWith (backendLoad b cfg) (backendGetChanges b)
 
 /-- `device.ApproveOrCompare` (the closure run under `errlog.HandleAbort`). -/
 def approveOrCompareP (b : Backend) (cfg : Cfg) : Prog :=
-  .note "call" "HandleAbort" ;;
   .note "closure" "" ;;
   .block
-    (.note "call" "getRealDevice" ;;
-     .ite (.opaque "isCompare" fun c _ _ => c.isCompare)
+    (.ite (.opaque "p1" fun c _ _ => c.isCompare)
        (.call "compare" (compareP b cfg)) (.call "approve" (approveP b cfg)) ;;
      .note "call" "CloseConnection" ;;
-     .note "if" "err != nil" ;; .block (.note "abort" "%v") ;;
+     .note "guard" "err != nil" ;; .block (.note "abort" "%v") ;;
      .note "ret" "0") ;;
   .note "ret" "HandleAbort(…)"
 
@@ -539,13 +544,11 @@ def runMain (b : Backend) (env : Env) : St :=
 
 /-- `device.CompareFiles`: two files, no device. -/
 def compareFilesP : Prog :=
-  .note "call" "HandleAbort" ;;
   .note "closure" "" ;;
   .block
-    (.note "call" "getRealDevice" ;;
-     .note "call" "loadSpoc" ;; .note "if" "err != nil" ;; .block (.note "abort" "%v") ;;
-     .note "call" "getCompare" ;; .note "if" "err != nil" ;; .block (.note "abort" "%v") ;;
-     .note "call" "showCompareInfo" ;; .note "call" "ShowChanges" ;; .note "ret" "0") ;;
+    (.note "guard" "err != nil" ;; .block (.note "abort" "%v") ;;
+     .note "call" "getCompare" ;; .note "guard" "err != nil" ;; .block (.note "abort" "%v") ;;
+     .note "ret" "0") ;;
   .note "ret" "HandleAbort(…)"
 
 /-! ## front ends
@@ -589,25 +592,27 @@ def runDoApprove (b : Backend) (cfg : Cfg) (dev : Dev) (plan : List String) (act
 /-! ## the table compared with `Gen.GateSkel.functions` -/
 
 def tryReachableSkel : List Item := [
-  (0, "call", "getHostnameIPList"), (0, "if", "err != nil"), (1, "ret", "err"),
-  (0, "for", "range nameList"),
-  (1, "call", "GetUserPass"), (1, "if", "err != nil"), (2, "ret", "err"),
-  (1, "call", "login"), (1, "if", "err != nil"), (2, "call", "Warning"),
+  (0, "guard", "err != nil"), (1, "ret", "err"),
+  (0, "for", "range v1"),
+  (1, "guard", "err != nil"), (2, "ret", "err"),
+  (1, "call", "p3"), (1, "guard", "err != nil"), (2, "warn", ""), (2, "continue", ""),
   (1, "ret", "nil"),
   (0, "ret", "Errorf(…)")]
 
 def nsxSendRequestSkel : List Item := [
-  (0, "if", "err != nil"), (1, "ret", "nil, err"),
-  (0, "send", "Do req"), (0, "if", "err != nil"), (1, "ret", "nil, err"),
-  (0, "if", "resp.StatusCode != http.StatusOK"), (1, "ret", "nil, New(…)"),
+  (0, "guard", "err != nil"), (1, "ret", "nil, err"),
+  (0, "send", "Do v1"), (0, "assign", "r1, err := <reply>"), (0, "guard", "err != nil"), (1, "ret", "nil, err"),
+  (0, "guard", "r1.StatusCode != http.StatusOK"), (1, "ret", "nil, New(…)"),
   (0, "ret", "ReadAll(…)")]
 
-def panHttpPrefixGetLogSkel : List Item := [(0, "send", "httpGet uri"), (0, "ret", "body, err")]
+def panHttpPrefixGetLogSkel : List Item := [
+  (0, "send", "httpGet p1"), (0, "assign", "r1, err := <reply>"), (0, "ret", "r1, err")]
 
 def panHttpGetSkel : List Item := [
-  (0, "send", "Get uri"), (0, "if", "err != nil"), (1, "ret", "nil, err"),
-  (0, "if", "resp.StatusCode != http.StatusOK"), (1, "ret", "body, New(…)"),
-  (0, "ret", "body, err")]
+  (0, "send", "Get p1"), (0, "assign", "r1, err := <reply>"), (0, "guard", "err != nil"), (1, "ret", "nil, err"),
+  (0, "assign", "v1, err ⇐ r1"),
+  (0, "guard", "r1.StatusCode != http.StatusOK"), (1, "ret", "v1, New(…)"),
+  (0, "ret", "v1, err")]
 
 /-- Function name ↦ skeleton of the program that models it (at the default configuration; the
 configuration only changes run-time strings, never the shape). -/
@@ -664,46 +669,36 @@ def q (s : String) : String := "\"" ++ s ++ "\""
 definitions and other watched assignments, every `switch` with all its clauses and the returns
 inside, and the calls into pkg/device.  The items that carry the dispatch are computed from the
 tables the model functions use. -/
+def boolFlag (f : String × String) (help : String) : String :=
+  "*v1.BoolP(" ++ q f.1 ++ ", " ++ q f.2 ++ ", false, " ++ q help ++ ")"
+def strFlag (f : String × String) (help : String) : String :=
+  "*v1.StringP(" ++ q f.1 ++ ", " ++ q f.2 ++ ", \"\", " ++ q help ++ ")"
+def quietFlag : String := boolFlag ("quiet", "q") "No info messages"
+
 def frontEndFacts : List (String × List Item) := [
   ("drc.Main", [
-    (0, "assign", "isCompare := fs.BoolP(" ++ q drcCompareFlag.1 ++ ", " ++ q drcCompareFlag.2 ++ ", false, \"Compare only\")"),
-    (0, "assign", "logDir := fs.StringP(" ++ q drcLogDirFlag.1 ++ ", " ++ q drcLogDirFlag.2 ++ ", \"\", \"Path for saving session logs\")"),
-    (0, "assign", "logFile := fs.StringP(\"LOGFILE\", \"\", \"\", \"Path to redirect STDERR\")"),
-    (0, "assign", "user := fs.StringP(\"user\", \"u\", \"\", \"Username for login to remote device\")"),
-    (0, "assign", "quiet := fs.BoolP(\"quiet\", \"q\", false, \"No info messages\")"),
-    (0, "assign", "showVer := fs.BoolP(\"version\", \"v\", false, \"Show version\")"),
-    (0, "assign", "err := fs.Parse(os.Args[1:])"),
-    (0, "assign", "args := fs.Args()"),
-    (0, "switch", "len(args)"),
+    (0, "switch", "len(v2)"),
     (1, "case", "0"), (2, "fallthrough", ""),
     (1, "case", "default"), (2, "ret", "1"),
     (1, "case", "1"),
     (3, "ret", "abort(…)"),
-    (2, "call", "device.SetLock"),
     (3, "ret", "abort(…)"),
-    (2, "call", "device.ApproveOrCompare(*isCompare, fname, cfg, *logDir, *logFile, *quiet)"),
+    (2, "call", "device.ApproveOrCompare(" ++ boolFlag drcCompareFlag "Compare only" ++ ", v2[0], v3, " ++
+      strFlag drcLogDirFlag "Path for saving session logs" ++ ", " ++
+      strFlag ("LOGFILE", "") "Path to redirect STDERR" ++ ", " ++ quietFlag ++ ")"),
     (2, "ret", "ApproveOrCompare(…)"),
     (1, "case", "2"),
-    (2, "assign", "q := fs.Changed(\"quiet\")"),
-    (2, "assign", "n := fs.NFlag()"),
     (3, "ret", "1"),
-    (2, "call", "device.CompareFiles(args[0], args[1], *quiet)"),
+    (2, "call", "device.CompareFiles(v2[0], v2[1], " ++ quietFlag ++ ")"),
     (2, "ret", "CompareFiles(…)")]),
   ("doapprove.Main",
-    [ (0, "assign", "brief := fs.BoolP(\"brief\", \"b\", false, \"Suppress message about unreachable device\")"),
-      (0, "assign", "err := fs.Parse(os.Args[1:])"),
-      (0, "assign", "args := fs.Args()"),
-      (0, "assign", "action := args[0]"),
-      (0, "assign", "devName := args[1]"),
-      (0, "assign", "logFile := path.Join(logDir, devName)"),
-      (0, "assign", "isCompare := action == " ++ q doApproveCompareWord),
-      (0, "switch", "action") ] ++
+    [ (0, "assign", "v3 := path.Join(path.Join(v4, \"log\"), v2[1])"),
+      (0, "switch", "v2[0]") ] ++
     doApproveCases.flatMap (fun c =>
-      [(1, "case", q c.1), (2, "assign", "logFile += " ++ q c.2)]) ++
+      [(1, "case", q c.1), (2, "assign", "v3 += " ++ q c.2)]) ++
     [ (1, "case", "default"), (2, "ret", "1"),
-      (0, "call", "device.SetLock"),
-      (0, "call", "device.ApproveOrCompare(isCompare, codeFile, cfg, logDir, logFile, false)"),
-      (0, "assign", "lines := strings.Split(string(data), \"\\n\")") ])]
+      (0, "call", "device.ApproveOrCompare((v2[0] == " ++ q doApproveCompareWord ++
+        "), path.Join(v4, \"code\", v2[1]), v5, path.Join(v4, \"log\"), v3, false)") ])]
 
 def isFrontEndItem (it : Item) : Bool :=
   it.2.1 == "assign" || it.2.1 == "switch" || it.2.1 == "case" || it.2.1 == "fallthrough" ||
